@@ -127,3 +127,38 @@ func (e *env) toServerSCIONRaw(raw []byte) (raws, payloads [][]byte) {
 		}
 	}
 }
+
+// replySCION wraps a payload into a SCION/UDP packet that answers the given request datagram:
+// addresses and ports swapped, empty path, no extension headers (so no packet authenticator).
+func replySCION(payload, rawReq []byte) []byte {
+	var (
+		scn slayers.SCION
+		hbh slayers.HopByHopExtnSkipper
+		e2e slayers.EndToEndExtn
+		udp slayers.UDP
+	)
+	parser := gopacket.NewDecodingLayerParser(slayers.LayerTypeSCION, &scn, &hbh, &e2e, &udp)
+	parser.IgnoreUnsupported = true
+	decoded := make([]gopacket.LayerType, 4)
+	if err := parser.DecodeLayers(rawReq, &decoded); err != nil {
+		fatal("request is not a SCION packet: %v", err)
+	}
+	var out slayers.SCION
+	out.FlowID = 1
+	out.NextHdr = slayers.L4UDP
+	out.PathType = empty.PathType
+	out.Path = empty.Path{}
+	out.DstIA, out.SrcIA = scn.SrcIA, scn.DstIA
+	out.DstAddrType, out.SrcAddrType = scn.SrcAddrType, scn.DstAddrType
+	out.RawDstAddr, out.RawSrcAddr = scn.RawSrcAddr, scn.RawDstAddr
+	var u slayers.UDP
+	u.SrcPort, u.DstPort = udp.DstPort, udp.SrcPort
+	u.SetNetworkLayerForChecksum(&out)
+	sb := gopacket.NewSerializeBuffer()
+	err := gopacket.SerializeLayers(sb, gopacket.SerializeOptions{ComputeChecksums: true, FixLengths: true},
+		&out, &u, gopacket.Payload(payload))
+	if err != nil {
+		fatal("SCION serialisation: %v", err)
+	}
+	return append([]byte(nil), sb.Bytes()...)
+}
